@@ -95,7 +95,7 @@ theorem runCb_ph (m : Machine) (x : Ctx) (ph : Phase) (cb : CbId) :
       · simp [Entry.rank]
       · obtain ⟨_, _, rfl⟩ := List.mem_map.mp he; simp [Entry.rank]
   · refine ⟨.cbBegin x.t.tid ph cb c.cur x.t.event x.src x.tgt ::
-        (a.sends.map (fun _ => Entry.sendRet x.t.tid ph cb .none) ++ [.cbEnd x.t.tid ph cb a.ret]),
+        (a.sends.map (fun _ => Entry.sendRet x.t.tid ph cb .none) ++ [.cbEnd x.t.tid ph cb (rtcRet m a)]),
         by simp [rtcSends], ?_, ?_⟩
     · apply hsorted
       intro e he
